@@ -41,6 +41,9 @@ func (x *Exec) baseState() *State {
 		return x.initBase.clone()
 	}
 	st := newState()
+	st.ev = nil
+	st.concreteAlloc = true
+	st.next = mkInt(1000) // objects allocated by initialisers get concrete, pairwise distinct references
 	x.immutable = x.scanImmutable()
 	x.inInit = true
 	for _, p := range x.inTreePackages() {
@@ -82,6 +85,7 @@ func (x *Exec) baseState() *State {
 	st.vals = map[ssa.Value]Val{}
 	st.cells = map[*ssa.Alloc]T{}
 	st.defers = nil
+	st.concreteAlloc = false
 	x.initBase = st
 	return st.clone()
 }
